@@ -5,4 +5,5 @@ A1 == {"SocksLibraryErrors"}
 A2 == {"H2LibraryErrorInBody"}
 A3 == {"PeerErrorReportedLocal"}
 A4 == {"StatusNotNumeric"}
+A5 == {"H2BodyLengthLeftToPeer"}
 =============================================================================
